@@ -63,6 +63,7 @@ def obligations(tier, seed):
 
             obs.append(Ob(f"C01/update;update/{nm}", upd2, (gfi.KEY, P.args, ex, ex2, ex, args2),
                           assume=lambda k, a, v, v2, v3, a2, A=A: A(a, v) + A(a2, v2) + A(a2, v3), note="importance ; update(first site, new args) ; update(last site)"))
+        obs += gfi.update_at_index_obs("C01", nm, P, mode="agree")
         if "regenerate" in P.supports:
             sels = [("all", S.all()), ("none", S.none())]
             for s in P.sites[:3]:
